@@ -1,4 +1,4 @@
 // harness TU for R2 (double)
 #define HX_HAS_ROTATION 0
 #include "generic.h"
-namespace hx { void run_R2(const Req& r, Resp& R) { run<manif::R2d>(r, R); } }
+namespace hx { void run_R2(const Req& r, Resp& R) { run<manif::Rn<HX_SC, 2>>(r, R); } }
